@@ -288,7 +288,7 @@ def make_judges(ctx):
 
 
 def floors(tier):
-    return [('route', r) for r in ('constructor', 'call', 'setitem', 'set_val', 'equal', 'like')] + [('read-huge-integer-bias',), ('inference-tolerance',), ('numpy-parameters',), ('object-array-numpy-scalars',), ('parameter-by-value',), ('scaled-operand-huge-bias',)] + [('scaled-target', w_, m_) for w_ in ('out', 'out_like') for m_ in ('raw', 'repr')] + [('carrier', c) for c in ('int8', 'int16', 'int32', 'uint8', 'uint16', 'uint64', 'float32', 'float16', 'Fxp', 'Fxp-scaled', 'int', 'float', 'float64', 'list')] + [('read', 'get_val'), ('read', 'astype'), ('read', '__call__'), ('read', 'element'), ('inferred',), ('resize',), ('raw-then-read',)] + \
+    return [('route', r) for r in ('constructor', 'call', 'setitem', 'set_val', 'equal', 'like')] + [('complex-value-odd-scale',), ('read-huge-integer-bias',), ('inference-tolerance',), ('numpy-parameters',), ('object-array-numpy-scalars',), ('parameter-by-value',), ('scaled-operand-huge-bias',)] + [('scaled-target', w_, m_) for w_ in ('out', 'out_like') for m_ in ('raw', 'repr')] + [('carrier', c) for c in ('int8', 'int16', 'int32', 'uint8', 'uint16', 'uint64', 'float32', 'float16', 'Fxp', 'Fxp-scaled', 'int', 'float', 'float64', 'list')] + [('read', 'get_val'), ('read', 'astype'), ('read', '__call__'), ('read', 'element'), ('inferred',), ('resize',), ('raw-then-read',)] + \
            [('params', True, False, True), ('params', False, False, True), ('params', True, True, False), ('params', True, False, False), ('params', False, False, False)]
 
 
@@ -303,6 +303,11 @@ def _try(f):
         return f()
     except Exception:
         return None
+
+
+def _fresh(x):
+    x.reset()       # (the value the object was built with - 0 - need not be representable through the scale: its flag is not the next write's)
+    return x
 
 
 def run_case(case, ctx):
@@ -337,6 +342,32 @@ def run_case(case, ctx):
     def inp(v):
         return int(v) if (v.denominator == 1 and rng.random() < 0.5) else float(v)
     kw = dict(rounding=r, overflow=o, scale=scale, bias=bias)
+    if i % 5 == 0:
+        # complex values with a scale k / 2^j whose numerator is not a power of two: the transformed value (v - b) / s has short dyadic components (every
+        # intermediate is an exact double); the stored code is their C01 quantization, no flag, and the value reads back exactly.  Workload-level
+        # comparison (the event judges of this property decode real values only)
+        kq = rng.choice([49, 75, 77, 91, 93, 98, 99, 103, 105, 107, 3, 7, 255])
+        scq = F(kq, 2 ** rng.choice([0, 0, 2, 4]))
+        biq = F(rng.choice([0, 0, 1, -3, 5]), 2 ** rng.choice([0, 1]))
+        nfq = rng.choice([0, 0, 2])
+        ca, cb = rng.randint(-100, 100), rng.randint(-100, 100)
+        ua, ub = F(ca, 2 ** nfq), F(cb, 2 ** nfq)
+        va, vb = ua * scq + biq, ub * scq
+        if all(G.can_carry(t_, 'pyfloat') for t_ in (va, vb, va - biq, scq, biq)):
+            vq = complex(float(va), float(vb))
+            kwq = dict(rounding=r, overflow=o, scale=int(scq) if scq.denominator == 1 and rng.random() < 0.5 else float(scq), bias=int(biq) if biq.denominator == 1 and rng.random() < 0.5 else float(biq))
+            for pos_, mk_ in ((0, lambda: Fxp(vq, True, 16, nfq, **kwq)), (1, lambda: Fxp(np.array([vq, vq]), True, 16, nfq, **kwq)), (0, lambda: Fxp([vq], True, 16, nfq, **kwq)),
+                              (1, lambda: _fresh(Fxp(np.zeros(2, dtype=complex), True, 16, nfq, **kwq)).set_val(vq, index=1)), (0, lambda: _fresh(Fxp(0j, True, 16, nfq, **kwq))(vq))):
+                try:
+                    xq = mk_()
+                    got_ = complex(np.asarray(xq.val).ravel().tolist()[pos_])
+                    if (got_.real, got_.imag) != (float(ca), float(cb)) or xq.status['inaccuracy']:
+                        ctx.violation('wrong_code', 'complex %r into fxp-s16/%d-complex scale=%r bias=%r %s/%s: stored code %r (inaccuracy %s), Q((v-b)/s) = (%d, %d) exactly' % (
+                            vq, nfq, kwq['scale'], kwq['bias'], r, o, got_, xq.status['inaccuracy'], ca, cb), key='scaled.complex')
+                except Exception as e_:
+                    ctx.violation('raises', 'storing a complex value into a scaled object raised %s: %s' % (type(e_).__name__, str(e_)[:80]), key='scaled.store_raises')
+            ctx.judged(('complex-scaled', kq, r), True, None)
+            ctx.floor_hit(('complex-value-odd-scale',))
     x = _try(lambda: Fxp(inp(vs[0]), s, w, nf, **kw))
     if x is not None:
         _try(lambda: x.get_val())
